@@ -2853,6 +2853,10 @@ static int spmatrix_set_size(spmatrix *self, PyObject *value, void *closure)
 #if PY_MAJOR_VERSION >= 3
   int m = PyLong_AS_LONG(PyTuple_GET_ITEM(value, 0));
   int n = PyLong_AS_LONG(PyTuple_GET_ITEM(value, 1));
+  if (PyErr_Occurred()) return -1;
+  if (m != PyLong_AS_LONG(PyTuple_GET_ITEM(value, 0)) ||
+      n != PyLong_AS_LONG(PyTuple_GET_ITEM(value, 1)))
+    PY_ERR_INT(PyExc_OverflowError, "dimensions are too large");
 #else
   int m = PyInt_AS_LONG(PyTuple_GET_ITEM(value, 0));
   int n = PyInt_AS_LONG(PyTuple_GET_ITEM(value, 1));
@@ -3205,6 +3209,7 @@ spmatrix_subscr(spmatrix* self, PyObject* args)
   if (PyInt_Check(args)) {
     i = PyInt_AS_LONG(args);
 #endif
+    if (i == -1 && PyErr_Occurred()) return NULL;
     if ( i<-SP_LGT(self) || i >= SP_LGT(self) )
       PY_ERR(PyExc_IndexError, "index out of range");
 
@@ -3256,6 +3261,7 @@ spmatrix_subscr(spmatrix* self, PyObject* args)
   if (PyInt_Check(argI) && PyInt_Check(argJ)) {
     i = PyInt_AS_LONG(argI); j = PyInt_AS_LONG(argJ);
 #endif
+    if ((i == -1 || j == -1) && PyErr_Occurred()) return NULL;
     if ( OUT_RNG(i, SP_NROWS(self)) || OUT_RNG(j, SP_NCOLS(self)) )
       PY_ERR(PyExc_IndexError, "index out of range");
 
@@ -3293,6 +3299,7 @@ spmatrix_subscr(spmatrix* self, PyObject* args)
     else if (PyInt_Check(argJ)){
       j = PyInt_AS_LONG(argJ);
 #endif
+      if (j == -1 && PyErr_Occurred()) return NULL;
       if ( OUT_RNG(j, SP_NCOLS(self)) )
           PY_ERR(PyExc_IndexError, "index out of range");
       colstart = CWRAP(j,SP_NCOLS(self));
@@ -3848,6 +3855,7 @@ spmatrix_ass_subscr(spmatrix* self, PyObject* args, PyObject* value)
 #else
     i = PyInt_AS_LONG(argI); j = PyInt_AS_LONG(argJ);
 #endif
+    if ((i == -1 || j == -1) && PyErr_Occurred()) return -1;
     if ( OUT_RNG(i, SP_NROWS(self)) || OUT_RNG(j, SP_NCOLS(self)) )
       PY_ERR_INT(PyExc_IndexError, "index out of range");
 
